@@ -49,6 +49,17 @@ def run(F, R):
     h2_constants(F, R)
     h4_gated(F, R, M)
     h5_net(F, R)
+    # H1 (transport side): the accepted feature set reaches the device in full and the offered set is read in full -
+    # both 32-bit halves, selector first - on the real MMIO (legacy and modern) and PCI transports (register traces
+    # shared with C10.M2 / C11.W3)
+    from . import C10 as _c10, C11 as _c11
+    _ft = lambda inst: 'features' in inst
+    _c10.ONLY_OPS = {'read_device_features', 'write_driver_features'}
+    try:
+        _c10.run(F, RuleProxy(R, {'M2': 'H1'}, only=_ft))
+    finally:
+        _c10.ONLY_OPS = None
+    _c11.run(F, RuleProxy(R, {'W3': 'H1'}, only=_ft))
     # H5 (use sites): every network-driver function that touches a header form selects it with the legacy-header flag
     # (12-byte modern form exactly when the flag - i.e. not VERSION_1 - is clear); shared with C16.S1
     if 'device::net::VirtioNetHdr' in F.adts:
